@@ -18,7 +18,7 @@ MANIFEST = dict(
     technique="TLA+ spec + TLC exhaustive model checking of cancellation placements; edge-complete graph replay into the "
               "implementation through a gated interpreter",
     design="5/C07")
-INVS = ["TypeOK", "NoOrphans", "NoIdleWait", "NotSwallowed"]
+INVS = ["TypeOK", "NoOrphans", "NoIdleWait", "NotSwallowed", "NoEscape"]
 PROPS = ["CancelCascades", "CheckAgrees"]
 
 
